@@ -4,6 +4,7 @@ import NflVerif.Model.Gauss
 import NflVerif.Spec.GaussSpec
 import NflVerif.Model.GaussParams
 import NflVerif.Model.GaussLife
+import NflVerif.Model.Samplers
 namespace Driver
 open Nfl.Gauss
 
@@ -13,6 +14,8 @@ structure GCfg where
   wp : Nat
   nb : Nat
   rc : Int
+  ob : Nat            -- width of `out_class` in bits
+  osg : Bool          -- `out_class` is a signed type
   bs : List Str
   T : Tables          -- the REAL tables, as dumped by the harness
   v0 : Int
@@ -60,8 +63,9 @@ def parseRows (ba : Array Str) (W : Nat) : Nat → List Int → Array (Option (A
 
 def parseGtab (args : List Int) : Option (Nat × GCfg) :=
   match args with
-  | id :: W :: depth :: wp :: nb :: rc :: rest =>
+  | id :: W :: depth :: wp :: nb :: rc :: ob :: osg :: rest =>
     let (W, depth, wp, nb) := (W.toNat, depth.toNat, wp.toNat, nb.toNat)
+    if !([8, 16, 32, 64].contains ob.toNat) || (osg != 0 && osg != 1) then none else
     let words := (rest.take (nb * wp)).map Int.toNat
     if words.length != nb * wp then none else
     let bs := chunks_GaussH wp nb words
@@ -71,7 +75,7 @@ def parseGtab (args : List Int) : Option (Nat × GCfg) :=
       match rest1 with
       | nrows :: rest2 =>
         match parseRows ba W nrows.toNat rest2 (Array.replicate (if depth == 2 then W else 0) none) with
-        | some (t2, []) => some (id.toNat, { W, depth, wp, nb, rc, bs, T := ⟨t1, t2⟩, v0 := v0Of nb rc })
+        | some (t2, []) => some (id.toNat, { W, depth, wp, nb, rc, ob := ob.toNat, osg := osg == 1, bs, T := ⟨t1, t2⟩, v0 := v0Of nb rc })
         | _ => none
       | _ => none
     | none => none
@@ -85,11 +89,22 @@ def pathName (wp used : Nat) : String :=
 
 def probeKind (k : Int) : String :=
   match k with
-  | 0 => "bisect" | 1 => "cell1-edge" | 2 => "cell2-edge" | 3 => "barrier±1" | _ => "random/const"
+  | 0 => "bisect" | 1 => "cell1-edge" | 2 => "cell2-edge" | 3 => "barrier±1" | 5 => "flagged-negative-cell" | _ => "random/const"
 
 def streamKind (k : Int) : String :=
   match k with
-  | 0 => "random" | 1 => "all-zero" | 2 => "all-ones" | 3 => "barrier,last±1" | 4 => "barrier-copies" | 5 => "flagged-words" | _ => "barrier-prefix"
+  | 0 => "random" | 1 => "all-zero" | 2 => "all-ones" | 3 => "barrier,last±1" | 4 => "barrier-copies" | 5 => "flagged-words" | 7 => "negative-barriers,last±1" | _ => "barrier-prefix"
+
+/-- `i32`, `u64`, … -/
+def outName (c : GCfg) : String := (if c.osg then "i" else "u") ++ toString c.ob
+
+/-- class of one decode: which path, and whether a walk over a flagged cell's barrier list produced a negative sample -/
+def decClass (c : GCfg) (d : Dec) : String :=
+  pathName c.wp d.used ++ (if d.used == c.wp then (if d.out < 0 then ":negative" else ":non-negative") else "")
+
+/-- every implementation output is a value of `out_class`, and read as the signed type of that width it is the integer `want` -/
+def outsAre (c : GCfg) (impl want : List Int) : Bool :=
+  impl.all (inOutRange c.ob c.osg) && impl.map (readOut c.ob) == want
 
 def lenBucket (n : Nat) : String :=
   if n == 0 then "rlen=0" else if n ≤ 2 then "rlen≤2" else if n ≤ 16 then "rlen≤16" else if n ≤ 64 then "rlen≤64" else if n ≤ 1024 then "rlen≤1024" else "rlen>1024"
@@ -165,7 +180,7 @@ def gaussHandlers : List (String × Handler) := [
         let m := match buildLUT c.depth c.W c.bs c.rc with
           | some T => if T == c.T then 1 else 0
           | none => 2
-        pure (some { model := [m], specOk := true, cls := s!"W={c.W}:depth={c.depth}:{nbBucket c.nb}" }),
+        pure (some { model := [m], specOk := true, cls := s!"W={c.W}:depth={c.depth}:out={outName c}:{nbBucket c.nb}" }),
     spec := fun a _ => do
       match a with
       | id :: _ =>
@@ -173,7 +188,9 @@ def gaussHandlers : List (String × Handler) := [
         | none => pure none
         | some c =>
           pure (some (barriersWF c.W c.wp c.bs && sortedB c.bs && c.nb % 2 == 1 && c.bs.length == c.nb && c.depth ≤ c.wp &&
-            lastOnes c.W c.depth c.bs && tableOK c.depth c.W c.bs c.v0 c.T && shapeOK c.depth c.W c.wp c.T))
+            lastOnes c.W c.depth c.bs && tableOK c.depth c.W c.bs c.v0 c.T && shapeOK c.depth c.W c.wp c.T &&
+            -- every sample v0 … v0+nb is representable in the signed type of out_class's width (else the cast loses it)
+            fitsOut c.ob c.v0 (c.v0 + c.nb)))
       | _ => pure none }),
   ("gdec", {
     run := fun a => do
@@ -184,7 +201,8 @@ def gaussHandlers : List (String × Handler) := [
         | some c =>
           let u := u.map Int.toNat
           match decode c.depth c.wp c.T u with
-          | some d => pure (some { model := [d.out], specOk := true, cls := s!"W={c.W}:depth={c.depth}:{probeKind kind}:{pathName c.wp d.used}" })
+          | some d => pure (some { model := [outStore c.ob c.osg d.out], specOk := true,
+                                   cls := s!"W={c.W}:depth={c.depth}:out={outName c}:{probeKind kind}:{decClass c d}" })
           | none => pure (some { model := [], specOk := true, cls := "model-rejects" })
       | _ => pure none,
     spec := fun a impl => do
@@ -192,7 +210,7 @@ def gaussHandlers : List (String × Handler) := [
       | id :: _ :: u =>
         match ← gaussCfg id.toNat with
         | none => pure none
-        | some c => pure (some (u.length == c.wp && impl == [invCDF c.bs c.v0 (u.map Int.toNat)]))
+        | some c => pure (some (u.length == c.wp && outsAre c impl [invCDF c.bs c.v0 (u.map Int.toNat)]))
       | _ => pure none }),
   ("gstep", {
     run := fun a => do
@@ -219,11 +237,12 @@ def gaussHandlers : List (String × Handler) := [
           let (rlen, bufLen) := (rlen.toNat, bufLen.toNat)
           let arr := (tape.map Int.toNat).toArray
           let fills := fun r => (arr.extract (r * bufLen) ((r + 1) * bufLen)).toList
-          let cls := s!"W={c.W}:depth={c.depth}:{streamKind kind}:{lenBucket rlen}"
+          let cls := s!"W={c.W}:depth={c.depth}:out={outName c}:{streamKind kind}:{lenBucket rlen}"
           match getNoise c.depth c.wp c.T bufLen fills rlen with
           | some evs =>
-            let paths := (if evs.any (·.used == c.wp) then "+full" else "") ++ (if evs.any (fun e => e.pos == 0 && e.req > 0) then "+refill" else "")
-            pure (some { model := [Int.ofNat (requests c.wp bufLen evs), 1, 1] ++ evs.map (·.out), specOk := true, cls := cls ++ paths })
+            let paths := (if evs.any (·.used == c.wp) then "+full" else "") ++ (if evs.any (fun e => e.used == c.wp && e.out < 0) then "+full:negative" else "") ++
+              (if evs.any (fun e => e.pos == 0 && e.req > 0) then "+refill" else "")
+            pure (some { model := [Int.ofNat (requests c.wp bufLen evs), 1, 1] ++ evs.map (fun e => outStore c.ob c.osg e.out), specOk := true, cls := cls ++ paths })
           | none => pure (some { model := [-1], specOk := true, cls := cls ++ ":model-over-read" })
       | _ => pure none,
     spec := fun a impl => do
@@ -241,9 +260,60 @@ def gaussHandlers : List (String × Handler) := [
             | none => false
           -- (2) the implementation's outputs and request count against the table-free reference decoder
           let ref := match Spec.refRun c.depth c.wp c.bs c.v0 bufLen fills rlen 0 0 ((fills 0).take bufLen) with
-            | some (outs, nreq) => impl.drop 3 == outs && impl.headD 0 == Int.ofNat nreq
+            | some (outs, nreq) => outsAre c (impl.drop 3) outs && impl.headD 0 == Int.ofNat nreq
             | none => false
           pure (some (c.wp ≤ bufLen && impl.length == rlen + 3 && (impl.drop 1).take 2 == [1, 1] && tr && ref))
+      | _ => pure none }),
+  ("gpoly", {
+    -- `poly<T,n,nm>::set(gaussian<in_class,T,depth>(sampler, amp))`, T = the sampler's out_class (unsigned, `w` bits):
+    -- model = getNoise loop model → `(T) output` → read back as `signed_value_type` → `Samplers.setGaussian` (amplifier, `p + v` for v < 0);
+    -- spec = every coefficient is the residue mod p of amp × (inverse CDF of the table-free reference run)
+    run := fun a => do
+      match a with
+      | id :: w :: n :: nm :: amp :: rest =>
+        match ← gaussCfg id.toNat with
+        | none => pure none
+        | some c =>
+          let (w, n, nm, amp) := (w.toNat, n.toNat, nm.toNat, amp.toNat)
+          let ps := (rest.take nm).map Int.toNat
+          match rest.drop nm with
+          | bufLen :: kind :: tape =>
+            let bufLen := bufLen.toNat
+            let arr := (tape.map Int.toNat).toArray
+            let fills := fun r => (arr.extract (r * bufLen) ((r + 1) * bufLen)).toList
+            let cls := s!"W={c.W}:depth={c.depth}:poly<u{w}>:{streamKind kind}:amp={amp}"
+            if w != c.ob || c.osg || ps.length != nm then pure (some { model := [], specOk := true, cls := "model-rejects:type" }) else
+            match getNoise c.depth c.wp c.T bufLen fills n with
+            | some evs =>
+              let rnd := evs.map fun e => readOut w (outStore c.ob c.osg e.out)
+              let neg := if evs.any (fun e => e.used == c.wp && e.out < 0) then "+full:negative" else if evs.any (·.out < 0) then "+negative" else ""
+              let data := (Nfl.Samplers.setGaussian w n ps amp rnd).flatten
+              pure (some { model := Int.ofNat (requests c.wp bufLen evs) :: data.map Int.ofNat, specOk := true, cls := cls ++ neg })
+            | none => pure (some { model := [-1], specOk := true, cls := cls ++ ":model-over-read" })
+          | _ => pure none
+      | _ => pure none,
+    spec := fun a impl => do
+      match a with
+      | id :: w :: n :: nm :: amp :: rest =>
+        match ← gaussCfg id.toNat with
+        | none => pure none
+        | some c =>
+          let (w, n, nm) := (w.toNat, n.toNat, nm.toNat)
+          let ps := (rest.take nm).map Int.toNat
+          match rest.drop nm with
+          | bufLen :: _ :: tape =>
+            let bufLen := bufLen.toNat
+            let arr := (tape.map Int.toNat).toArray
+            let fills := fun r => (arr.extract (r * bufLen) ((r + 1) * bufLen)).toList
+            match Spec.refRun c.depth c.wp c.bs c.v0 bufLen fills n 0 0 ((fills 0).take bufLen) with
+            | some (outs, nreq) =>
+              -- the statement is about amplified samples below every modulus and inside the signed limb
+              let small := outs.all fun v => ps.all fun p => decide ((v * amp).natAbs < p) && decide ((v * amp).natAbs < 2 ^ (w - 1))
+              let want : List Int := ps.flatMap fun (p : Nat) => outs.map fun v => (v * amp) % (p : Int)
+              pure (some (c.wp ≤ bufLen && w == c.ob && !c.osg && ps.length == nm && ps.all (· > 0) && small &&
+                impl.headD 0 == Int.ofNat nreq && impl.drop 1 == want))
+            | none => pure (some false)
+          | _ => pure none
       | _ => pure none }),
   ("gtv", {
     run := fun a => pure (match a with
